@@ -1,0 +1,52 @@
+//go:build verif
+
+package main
+
+import (
+	"bufio"
+	"encoding/hex"
+	"encoding/json"
+	"fmt"
+	"os"
+
+	"github.com/edutko/decipher/internal/file"
+)
+
+// Verification hook (see /verif): when DECIPHER_VERIF_PRINTINFO is set, read report
+// trees from stdin (one JSON object per line, strings hex-encoded), print each with
+// printInfo and a separator line, and exit. Not compiled without the "verif" tag.
+type verifInfo struct {
+	D string      `json:"d"`
+	A [][2]string `json:"a"`
+	C []verifInfo `json:"c"`
+}
+
+func (v verifInfo) info() file.Info {
+	unhex := func(s string) string { b, _ := hex.DecodeString(s); return string(b) }
+	i := file.Info{Description: unhex(v.D)}
+	for _, a := range v.A {
+		i.Attributes = append(i.Attributes, file.Attribute{Name: unhex(a[0]), Value: unhex(a[1])})
+	}
+	for _, c := range v.C {
+		i.Children = append(i.Children, c.info())
+	}
+	return i
+}
+
+func init() {
+	if os.Getenv("DECIPHER_VERIF_PRINTINFO") == "" {
+		return
+	}
+	sc := bufio.NewScanner(os.Stdin)
+	sc.Buffer(make([]byte, 1<<20), 1<<28)
+	for sc.Scan() {
+		var v verifInfo
+		if err := json.Unmarshal(sc.Bytes(), &v); err != nil {
+			fmt.Fprintln(os.Stderr, "verif hook:", err)
+			os.Exit(3)
+		}
+		printInfo(v.info(), 0)
+		fmt.Print("\n==VERIF-SEP==\n")
+	}
+	os.Exit(0)
+}
